@@ -264,10 +264,16 @@ def closure(roots, reg: Registry):
                     elif a.type == ir.AttributeType.GRAPHS:
                         nxt.extend(a.value)
         elif isinstance(o, (_core.Graph, _core.GraphView)):
-            nxt.extend(o)
-            nxt.extend(o.inputs)
-            nxt.extend(o.outputs)
-            nxt.extend(o.initializers.values())
+            try:
+                members = list(o) + list(o.inputs) + list(o.outputs) + list(o.initializers.values())
+            except AttributeError:
+                # a graph whose constructor raised half-way but which is still referenced by IR objects
+                zombies = getattr(reg, "zombies", None)
+                if zombies is None:
+                    zombies = reg.zombies = {}
+                zombies[id(o)] = o
+                members = []
+            nxt.extend(members)
         elif isinstance(o, _core.Function):
             nxt.extend(o)
             nxt.extend(o.inputs)
@@ -289,7 +295,7 @@ def snapshot(roots, reg: Registry, with_bytes=False) -> dict:
         elif isinstance(o, _core.Node):
             out[t] = node_rec(o, reg, with_bytes)
         elif isinstance(o, (_core.Graph, _core.GraphView)):
-            out[t] = graph_rec(o, reg)
+            out[t] = ("G", "<half-constructed>") if id(o) in getattr(reg, "zombies", {}) else graph_rec(o, reg)
         elif isinstance(o, _core.Function):
             out[t] = function_rec(o, reg)
     return out
